@@ -200,7 +200,14 @@ Ref(a) ==
                                           "shuffle", "cycle"}
       THEN RefRefuse("undef")
       ELSE
-      CASE a.op \in {"map", "pmap"} ->     \* pmap: map(fn, num_workers=w, buffer_size=bs)
+      \* map(fn, num_workers=w, buffer_size=bs) iterates its INPUT in the
+      \* consumer's own thread: when the input raises, up to buffer_size results
+      \* that were already computed are not delivered.  No statement says how
+      \* many examples precede a propagating failure there (C06 speaks about
+      \* prefetch; the eager list operation delivers nothing at all), so the
+      \* reference is undefined; Impl.tla models what the code does (conformance).
+      CASE a.op = "pmap" /\ (~AllOk(r.el) \/ r.tail # "none") -> RefRefuse("undef")
+        [] a.op \in {"map", "pmap"} ->     \* pmap: map(fn, num_workers=w, buffer_size=bs)
              RefRec([j \in 1..Len(r.el) |->
                        IF r.el[j].ok THEN ElOk(r.el[j].k, ApplyFn(a.f, r.el[j].v))
                        ELSE r.el[j]], r.tail, r.kcap)
